@@ -43,7 +43,7 @@ def oracle_case(res, M, bnds, pts, rank, obs=None):
     res.evaluations += 1
     try:
         if obs is None:
-            obs = observe(mk_poly(M, bnds), np_points(pts, n, rank))
+            obs = observe(*poly_and_points(M, bnds, pts, rank))
     except Exception as e:
         res.violation("oracle", f"point classification raised {type(e).__name__}: {e} on matrix {M} points {pts}",
                       {"op": "points", "M": M, "bnds": bnds, "pts": pts, "rank": rank})
@@ -89,9 +89,26 @@ def gen_wide_case(rng):
         M.append([sum(c * v for c, v in zip(a, x)) + rng.choice([0, 0, 1, -1])] + a)
     return M, bnds, "wide_boundary", rank, pts
 
+def gen_narrow_case(rng):
+    """every entry of the matrix and of the points fits one byte (or 16 bits) while the products a.x do not:
+    the answers must not depend on the integer type the caller stored the data in"""
+    n = rng.randint(1, 3)
+    top = rng.choice([100, 100, 30000])
+    bnds = [(-top, top)] * n
+    def pt():
+        return [rng.choice([top, -top, rng.randint(-top, top), rng.randint(-3, 3)]) for _ in range(n)]
+    rank = rng.choice([1, 2, 3, 3, 3])
+    gsz = rng.randint(1, 2)
+    pts = pt() if rank == 1 else [pt() for _ in range(rng.randint(1, 3))] if rank == 2 else [[pt() for _ in range(gsz)] for _ in range(rng.randint(1, 2))]
+    M = [[rng.randint(-top, top)] + [rng.choice([rng.randint(-top, top), rng.randint(-top, top), 1, -1, 0]) for _ in range(n)]
+         for _ in range(rng.randint(1, 3))]
+    return M, bnds, "narrow_storage", rank, pts
+
 def gen_case(rng):
     if rng.random() < 0.12:
         return gen_wide_case(rng)
+    if rng.random() < 0.10:
+        return gen_narrow_case(rng)
     M, bnds, prof = gen_system(rng, rng.choice(["bool", "bigm", "mixed", "mixed", "zeros", "forcing"]))
     if rng.random() < 0.04:
         M, prof = [], "no_rows"          # a polyhedron without rows: every point is satisfied, nothing separates
@@ -108,7 +125,7 @@ def run(res, tier, seed):
         M, bnds, prof, rank, pts = gen_case(rng)
         n = len(bnds)
         try:
-            obs = observe(mk_poly(M, bnds), np_points(pts, n, rank))
+            obs = observe(*poly_and_points(M, bnds, pts, rank))
         except Exception as e:
             res.violation("oracle", f"point classification raised {type(e).__name__}: {e} on matrix {M} points {pts}",
                           {"op": "points", "M": M, "bnds": bnds, "pts": pts, "rank": rank})
@@ -176,7 +193,7 @@ def replay(payload):
     r = payload.get("replay", payload)
     M, bnds, pts, rank = r["M"], [tuple(x) for x in r["bnds"]], r["pts"], r["rank"]
     try:
-        obs = observe(mk_poly(M, bnds), np_points(pts, len(bnds), rank))
+        obs = observe(*poly_and_points(M, bnds, pts, rank))
     except Exception as e:
         print("matrix", M, "points", pts, "raised", type(e).__name__, e)
         return 1
